@@ -82,13 +82,123 @@ pub fn env_u64(k: &str, d: u64) -> u64 {
     std::env::var(k).ok().and_then(|s| s.parse().ok()).unwrap_or(d)
 }
 
+/// Everything a batch accumulates. Results are folded in run-index order as soon as the next index is
+/// available (streaming merge), so memory stays bounded by the out-of-order window and the outcome does not
+/// depend on the worker count: the fold covers the longest gap-free prefix and stops at the first violation.
+struct Acc {
+    expect: u64,
+    pending: BTreeMap<u64, CaseOutcome>,
+    done: bool,
+    evaluations: u64,
+    cases: u64,
+    distinct: BTreeSet<u64>,
+    probes: Probes,
+    faults: BTreeMap<String, u64>,
+    states: BTreeSet<u64>,
+    sim_seconds: u64,
+    api_calls: u64,
+    dev_calls: u64,
+    foreign_aborts: u64,
+    samples: Vec<Value>,
+    first_case: Option<Value>,
+    first_violation: Option<(u64, Violation, Value)>,
+    known_hits: BTreeMap<String, (u64, String)>,
+    all_viol_sigs: BTreeMap<String, u64>,
+    foreign_sigs: BTreeMap<String, u64>,
+    batch_hash: u64,
+}
+
+impl Acc {
+    fn fold(&mut self, i: u64, out: CaseOutcome, prop: &str, known: &Known) {
+        self.cases += 1;
+        crate::rng::fnv_add(&mut self.batch_hash, &out.ev_hash.to_le_bytes());
+        self.evaluations += out.evaluations.max(1);
+        if out.nontrivial {
+            self.distinct.insert(out.ev_hash);
+        }
+        self.probes.merge(&out.probes);
+        for (k, v) in &out.faults {
+            *self.faults.entry(k.clone()).or_insert(0) += v;
+        }
+        for s in &out.states {
+            self.states.insert(*s);
+        }
+        self.sim_seconds += out.sim_seconds;
+        self.api_calls += out.api_calls;
+        self.dev_calls += out.dev_calls;
+        if out.foreign_abort {
+            self.foreign_aborts += 1;
+        }
+        if self.first_case.is_none() {
+            self.first_case = Some(out.case.clone());
+        }
+        if self.samples.len() < 3 && out.nontrivial && (i % 7 == 0 || self.samples.is_empty()) {
+            self.samples.push(out.case.clone());
+        }
+        for v in &out.viols {
+            if v.prop != prop {
+                *self.foreign_sigs.entry(v.signature()).or_insert(0) += 1;
+                continue;
+            }
+            *self.all_viol_sigs.entry(v.signature()).or_insert(0) += 1;
+            if let Some((_, sig, what)) = known.matches(v) {
+                let e = self.known_hits.entry(sig.clone()).or_insert((0, what.clone()));
+                e.0 += 1;
+            } else if self.first_violation.is_none() {
+                self.first_violation = Some((i, v.clone(), out.case.clone()));
+            }
+        }
+        if self.first_violation.is_some() {
+            self.done = true;
+            self.pending.clear();
+        }
+    }
+    fn offer(&mut self, i: u64, out: CaseOutcome, prop: &str, known: &Known) {
+        if self.done {
+            return;
+        }
+        self.pending.insert(i, out);
+        while !self.done {
+            match self.pending.remove(&self.expect) {
+                Some(o) => {
+                    let idx = self.expect;
+                    self.expect += 1;
+                    self.fold(idx, o, prop, known);
+                }
+                None => break,
+            }
+        }
+    }
+}
+
 pub fn run_batch<F>(cfg: &BatchCfg, known: &Known, f: F) -> BatchResult
 where
     F: Fn(u64, u64) -> CaseOutcome + Sync,
 {
     let t0 = std::time::Instant::now();
     let next = AtomicU64::new(0);
-    let results: Mutex<BTreeMap<u64, CaseOutcome>> = Mutex::new(BTreeMap::new());
+    let acc: Mutex<Acc> = Mutex::new(Acc {
+        expect: 0,
+        pending: BTreeMap::new(),
+        done: false,
+        evaluations: 0,
+        cases: 0,
+        distinct: BTreeSet::new(),
+        probes: Probes::default(),
+        faults: BTreeMap::new(),
+        states: BTreeSet::new(),
+        sim_seconds: 0,
+        api_calls: 0,
+        dev_calls: 0,
+        foreign_aborts: 0,
+        samples: Vec::new(),
+        first_case: None,
+        first_violation: None,
+        known_hits: BTreeMap::new(),
+        all_viol_sigs: BTreeMap::new(),
+        foreign_sigs: BTreeMap::new(),
+        batch_hash: 0xcbf29ce484222325u64,
+    });
     let stop = AtomicU64::new(u64::MAX);
     let harness_panics: Mutex<Vec<(u64, String)>> = Mutex::new(Vec::new());
     std::thread::scope(|s| {
@@ -121,82 +231,21 @@ where
                         // later runs are not needed once an unlisted violation exists; lower indices still finish
                         stop.fetch_min(i, Ordering::SeqCst);
                     }
-                    results.lock().unwrap().insert(i, out);
+                    acc.lock().unwrap().offer(i, out, cfg.prop, known);
                 }
             });
         }
     });
-    let results = results.into_inner().unwrap();
+    let acc = acc.into_inner().unwrap();
     let harness_panics = harness_panics.into_inner().unwrap();
     if let Some((i, loc)) = harness_panics.iter().min() {
         eprintln!("harness error: the simulator itself panicked in run {} at {} (seed formula: mix(VERIF_SEED={}, tag({}), {}))", i, loc, cfg.seed, cfg.prop, i);
         std::process::exit(2);
     }
-    // merge in index order, over the longest gap-free prefix (so that output is independent of the worker count)
-    let mut evaluations = 0u64;
-    let mut cases = 0u64;
-    let mut distinct: BTreeSet<u64> = BTreeSet::new();
-    let mut probes = Probes::default();
-    let mut faults: BTreeMap<String, u64> = BTreeMap::new();
-    let mut states: BTreeSet<u64> = BTreeSet::new();
-    let mut sim_seconds = 0u64;
-    let mut api_calls = 0u64;
-    let mut dev_calls = 0u64;
-    let mut foreign_aborts = 0u64;
-    let mut samples: Vec<Value> = Vec::new();
-    let mut first_violation = None;
-    let mut known_hits: BTreeMap<String, (u64, String)> = BTreeMap::new();
-    let mut all_viol_sigs: BTreeMap<String, u64> = BTreeMap::new();
-    let mut foreign_sigs: BTreeMap<String, u64> = BTreeMap::new();
-    let mut batch_hash = 0xcbf29ce484222325u64;
-    let mut expect = 0u64;
-    for (i, out) in results.iter() {
-        if *i != expect {
-            break;
-        }
-        expect += 1;
-        cases += 1;
-        crate::rng::fnv_add(&mut batch_hash, &out.ev_hash.to_le_bytes());
-        evaluations += out.evaluations.max(1);
-        if out.nontrivial {
-            distinct.insert(out.ev_hash);
-        }
-        probes.merge(&out.probes);
-        for (k, v) in &out.faults {
-            *faults.entry(k.clone()).or_insert(0) += v;
-        }
-        for s in &out.states {
-            states.insert(*s);
-        }
-        sim_seconds += out.sim_seconds;
-        api_calls += out.api_calls;
-        dev_calls += out.dev_calls;
-        if out.foreign_abort {
-            foreign_aborts += 1;
-        }
-        if samples.len() < 3 && out.nontrivial && (*i % 7 == 0 || samples.is_empty()) {
-            samples.push(out.case.clone());
-        }
-        for v in &out.viols {
-            if v.prop != cfg.prop {
-                *foreign_sigs.entry(v.signature()).or_insert(0) += 1;
-                continue;
-            }
-            *all_viol_sigs.entry(v.signature()).or_insert(0) += 1;
-            if let Some((_, sig, what)) = known.matches(v) {
-                let e = known_hits.entry(sig.clone()).or_insert((0, what.clone()));
-                e.0 += 1;
-            } else if first_violation.is_none() {
-                first_violation = Some((*i, v.clone(), out.case.clone()));
-            }
-        }
-        if first_violation.is_some() {
-            break;
-        }
-    }
+    let Acc { evaluations, cases, distinct, probes, faults, states, sim_seconds, api_calls, dev_calls, foreign_aborts, mut samples, first_case, first_violation, known_hits, all_viol_sigs, foreign_sigs, batch_hash, .. } = acc;
     if samples.is_empty() {
-        if let Some((_, o)) = results.iter().next() {
-            samples.push(o.case.clone());
+        if let Some(c) = first_case {
+            samples.push(c);
         }
     }
     let wall = t0.elapsed().as_secs_f64();
